@@ -13,9 +13,9 @@ namespace etl {
 /// https://en.cppreference.com/w/cpp/string/byte/strtoul
 [[nodiscard]] constexpr auto strtoul(char const* str, char const** last, int base) noexcept -> unsigned long
 {
-    auto const res = strings::to_integer<unsigned long>(str, static_cast<unsigned long>(base));
+    auto const res = strings::to_integer_c<unsigned long>(str, base);
     if (last != nullptr) {
-        *last = res.end;
+        *last = str + res.consumed;
     }
     return res.value;
 }
@@ -25,9 +25,9 @@ namespace etl {
 /// https://en.cppreference.com/w/cpp/string/byte/strtoul
 [[nodiscard]] constexpr auto strtoull(char const* str, char const** last, int base) noexcept -> unsigned long long
 {
-    auto const res = strings::to_integer<unsigned long long>(str, static_cast<unsigned long long>(base));
+    auto const res = strings::to_integer_c<unsigned long long>(str, base);
     if (last != nullptr) {
-        *last = res.end;
+        *last = str + res.consumed;
     }
     return res.value;
 }
